@@ -1,5 +1,5 @@
 import Driver.Proto
-import IronCalc.User.Diffs
+import IronCalc.User.WF
 /-
   Model side of the user-model histories (C01–C04, C27):
     `<cXX> m <cmd> <cmd> …`  →  `<step>,<step>,… | <state> | wf=<0|1>`
@@ -89,21 +89,13 @@ def bookStr (cols rows : List Int) (b : Book) : String :=
   s!"n={hexEncode b.name};l={hexEncode b.locale};t={hexEncode b.tz};" ++
     String.join (b.sheets.map (sheetStr cols rows))
 
-/-- C27, the clauses the attribute model can express: sheet names valid and unique ignoring case,
-    sheet ids unique, at least one sheet, frozen counts inside the grid -/
-def wfBook (env : Env) (b : Book) : Bool :=
-  !b.sheets.isEmpty &&
-  b.sheets.all (fun s => isValidSheetName s.name) &&
-  (b.sheets.map fun s => env.upper s.name).eraseDups.length == b.sheets.length &&
-  (b.sheets.map fun s => s.id).eraseDups.length == b.sheets.length
-
 def runSteps (cs : List (Cmd Op)) : St Book Diff × List String × Bool :=
   cs.foldl (fun (acc : St Book Diff × List String × Bool) c =>
     let (s, out, wf) := acc
     let r := step (sys umEnv) s c
     let s' := r.1
     (s', out ++ [s!"{if r.2 then "o" else "e"}{s'.undo.length}/{s'.redo.length}/{s'.queue.length}"],
-      wf && wfBook umEnv s'.w)) (St.init, [], true)
+      wf && WFBook umEnv s'.w)) (St.init, [], true)
 
 def um (args : List String) : String :=
   match args with
